@@ -143,20 +143,20 @@ fn res<Z: Quantity>(z: Z) -> Value where Z::UnitType: Debug { json!([amt(z.amoun
 def enumerate_definitions(tier):
     defs = []
     n = 0
-    for d in defgen.ref_definitions(tier) + defgen.big_ref_definitions(tier) + defgen.noref_definitions(tier):
+    for d in defgen.ref_definitions(tier) + defgen.big_ref_definitions(tier) + defgen.tiny_ref_definitions(tier) + defgen.noref_definitions(tier):
         defs.append(defgen.uniquify(d, n))
         n += 1
     # derived: each result-type shape declared as A*B, A/B, A*A, AmountT/A over two fresh base definitions
     results = [(["0.5"], 0, None), (["1000"], 1, [1, 0]), (["0.001", "1000"], 2, None), (["1000.", "0.001"], 3, [2, 1, 0]),
-               (["1", "2.5"], 0, [1, 0, 2]), (["1e3", "1.0"], 1, None)]
+               (["1", "2.5"], 4, [1, 0, 2]), (["1e3", "1.0"], 5, None)]
     op_scales = [("1000", "0.001"), ("1000", "1000"), ("0.5", "2.5")]
     for shape in ("A*B", "A/B", "A*A", "AmountT/A"):
         for lits, pat, order in results:
             for sa, sb in (op_scales if tier == "thorough" else op_scales[:2]):
                 p = defgen.pattern(pat, len(lits) + 1)
-                us = [defgen.unit("Unit_%sx" % "ABC"[i], defgen.SYMS[i + 1], lit, defgen.PREFIX_FOR.get(lit) if p["prefix"] else None,
+                us = [defgen.unit("Unit_%sx" % "ABC"[i], defgen.SYMS[i + 1], lit, defgen.PREFIX_FOR.get(lit) if p["prefix_units"] else None,
                                   "doc %d" % i if p["doc"] else None) for i, lit in enumerate(lits)]
-                r = defgen.unit("Ref_Unit", defgen.SYMS[0], None, "NONE" if p["prefix"] else None, "reference" if p["doc"] else None)
+                r = defgen.unit("Ref_Unit", defgen.SYMS[0], None, "NONE" if p["prefix_ref"] else None, "reference" if p["doc"] else None)
                 d = defgen.uniquify({"kind": "ref", "ref": r, "units": us, "order": order, "doc_pos": p["doc_pos"], "combo": tuple(lits)}, n)
                 n += 1
                 t = d["tag"]
